@@ -595,8 +595,53 @@ func (v *Verifier) typeTag(t types.Type) *Term {
 	if !ok {
 		n = int64(len(v.typeTags) + 1)
 		v.typeTags[key] = n
+		if v.tagTypes == nil {
+			v.tagTypes = map[int64]types.Type{}
+		}
+		v.tagTypes[n] = t
+		for name, ifc := range v.implIfaces {
+			v.implementsFact(name, ifc, n, t)
+		}
 	}
 	return v.c.Int(n)
+}
+
+// implementsSym names the predicate "a value of dynamic type <tag> can be asserted to interface type it" (over type tags).
+// Interface types of different packages that share package and type name (x/evm/types.TxData, core/types.TxData) get different
+// predicates. Go's type checker decides the predicate for every concrete type that has a tag: the ground facts
+// implements_I(tag(T)) / not implements_I(tag(T)) are attached to the symbol (method sets are static facts of the program).
+func (v *Verifier) implementsSym(it types.Type) string {
+	name := "implements_" + sanitize(shortTypeName(it))
+	key := typeKey(it)
+	if v.implNames == nil {
+		v.implNames = map[string]string{}
+		v.implIfaces = map[string]*types.Interface{}
+	}
+	if prev, ok := v.implNames[name]; ok && prev != key {
+		name = fmt.Sprintf("%s_%x", name, hashStr(key))
+	}
+	if _, ok := v.implNames[name]; !ok {
+		v.implNames[name] = key
+		if ifc, isI := it.Underlying().(*types.Interface); isI {
+			v.implIfaces[name] = ifc
+			for n, t := range v.tagTypes {
+				v.implementsFact(name, ifc, n, t)
+			}
+		}
+	}
+	return name
+}
+
+func (v *Verifier) implementsFact(name string, ifc *types.Interface, n int64, t types.Type) {
+	if _, isI := t.Underlying().(*types.Interface); isI {
+		return // a tag of an interface type is never the dynamic type of a value
+	}
+	v.c.DeclareFun(name, []*Sort{SInt}, SBool)
+	if types.Implements(t, ifc) {
+		v.c.AddAxiom(name, fmt.Sprintf("(assert (%s %d))", smtSym(name), n))
+	} else {
+		v.c.AddAxiom(name, fmt.Sprintf("(assert (not (%s %d)))", smtSym(name), n))
+	}
 }
 
 // boxName gives the name of the boxing function of a concrete type; types of different packages that share package and
@@ -632,7 +677,7 @@ func (fc *FuncCtx) execTypeAssert(fr *Frame, st *State, t *ssa.TypeAssert) {
 	c := v.c
 	x := v.asTerm(st, fc.valOf(fr, t.X))
 	if _, toIface := t.AssertedType.Underlying().(*types.Interface); toIface {
-		ok := c.And(c.Not(c.Eq(x, c.Int(0))), c.UF("implements_"+sanitize(shortTypeName(t.AssertedType)), SBool, c.UF("typeof", SInt, x)))
+		ok := c.And(c.Not(c.Eq(x, c.Int(0))), c.UF(v.implementsSym(t.AssertedType), SBool, c.UF("typeof", SInt, x)))
 		if ifc, isI := t.AssertedType.Underlying().(*types.Interface); isI && types.Implements(t.X.Type(), ifc) {
 			// the static type of the operand already guarantees the method set: only nil fails
 			ok = c.Not(c.Eq(x, c.Int(0)))
